@@ -56,13 +56,18 @@ DEFECT_VARIANTS = {
                           'run @ PGM x -existing-file -rel-home missing.py', 'run @ PGM2 -existing-path missing-path'],
     'bad_integer': ['timeout = 1.5', 'timeout = abc', 'timeout = "1 +"',
                     {'assert': 'dir-contents . : matches {\n  a.txt\n  a.txt : contents num-lines == 1.5\n}',
-                     'other': 'timeout = 2.5'}],
+                     'other': 'timeout = 2.5'},
+                    {'assert': 'dir-contents . : matches {\n  a.txt : contents num-lines == 1+\n  a.txt\n}',
+                     'other': 'timeout = 1+'}],
     'bad_regex': ["file r.txt = -contents-of -rel-home exists.txt -transformed-by replace '(' x",
                   "file r.txt = -contents-of -rel-home exists.txt -transformed-by grep '*'",
                   "file r.txt = -contents-of -rel-home exists.txt -transformed-by filter contents matches '[a'",
                   # the defect in the matcher of a REPEATED file name of a FILES-CONDITION ([assert] only)
                   {'assert': "dir-contents . : matches {\n  a.txt : type file\n  a.txt : contents matches '('\n}",
-                   'other': "file r.txt = -contents-of -rel-home exists.txt -transformed-by grep '('"}],
+                   'other': "file r.txt = -contents-of -rel-home exists.txt -transformed-by grep '('"},
+                  # ... and in the matcher of the EARLIER of two entries with the same name
+                  {'assert': "dir-contents . : matches {\n  a.txt : contents matches '('\n  b.txt\n  a.txt : type file\n}",
+                   'other': "file r.txt = -contents-of -rel-home exists.txt -transformed-by replace '[' x"}],
     'wrong_type': ['def text-matcher TM = DEFINED', 'def path WP = -rel DEFINED x', 'def text-transformer WT = DEFINED',
                    # a wrong type reached indirectly, and not through the first reference of the definition
                    'timeout = @[INDIRECT]@', 'env @[INDIRECT]@ = v'],
